@@ -22,6 +22,39 @@ INIT = FM + "::init_segment"
 QUERIES = [FM + "::ready_to_flush", FM + "::current_fragment_duration_ms"]
 
 
+def immutable_samples(cx, run, R="R8"):
+    u = cx.u
+    adt = u.adts.get("fragmented::FragmentSample")
+    if not adt:
+        run.bad(R, "anchor FragmentSample", "sample record type not found")
+        return
+    fields = {f["name"] for f in adt["variants"][0]["fields"]}
+    n = 0
+    for p, b in u.bodies.items():
+        if b["in_test_cfg"] or not mir.norm(p).startswith("fragmented::"):
+            continue
+        for (bb, i, (root, path), why, node) in cx.st.sites.get(p, []):
+            n += 1
+            pl = node.get("place") if node.get("k") == "assign" else None
+            if pl and pl["p"] and pl["p"][-1].get("k") == "field" and pl["p"][-1].get("adt") == "fragmented::FragmentSample" and any(e_.get("k") == "deref" for e_ in pl["p"]):
+                run.bad(R, "store %s <sample>.%s" % (mir.norm(p), pl["p"][-1].get("name")), "field `%s` of a queued sample is overwritten after it was accepted: what is written is no longer what was submitted" % pl["p"][-1].get("name"), mir.loc_of(node))
+                continue
+            if "[]" in path and path[-1] in fields and path.index("[]") == len(path) - 2:
+                # element of a collection of samples: which collection? the muxer's queue or a vector taken from it
+                owner = None
+                if root == ("arg", 1) and path[0] == "samples":
+                    owner = "self.samples"
+                elif root[0] == "local":
+                    ty = b["locals"][root[1]]["ty"]
+                    if "FragmentSample" in ty:
+                        owner = "a local vector of samples"
+                if owner:
+                    run.bad(R, "store %s %s.%s" % (mir.norm(p), owner, path[-1]), "field `%s` of a queued sample (%s) is overwritten after it was accepted: what is written is no longer what was submitted" % (path[-1], owner), mir.loc_of(node))
+    run.floor(R, n, 3, "store sites examined in the fragmented muxer")
+    if not any(o["rule"] == R and o["status"] == "violation" for o in run.obs):
+        run.ok(R, "no store to a queued sample", "%d store sites in fragmented::*, none targets a field of a queued sample" % n)
+
+
 def check(prog, run):
     run.rule("R1", "take-all: stores to the sample queue are exactly {push in write_video, mem::take in flush_segment}; the segment builder receives the taken vector")
     run.rule("R2", "empty flush is a no-op: the None exit of flush_segment is store-free")
@@ -35,6 +68,8 @@ def check(prog, run):
     except AnchorMissing as e:
         run.bad("R1", "anchor", "anchor missing: %s" % e)
         return
+    run.rule("R8", "queued samples are immutable: no field of a queued/taken fragment sample is stored to after the push")
+    immutable_samples(cx, run)
     u = cx.u
     for f in [WRITE, FLUSH, NEW, INIT] + QUERIES:
         if f not in u.bodies:
